@@ -431,9 +431,10 @@ Fixpoint norm_event (s : str) : str :=
 Definition event_fn_b (name : str) : outcome str :=
   do p <- naming_b RPascal (norm_event name); Ok (L "on" ++ p).
 
-(* serde-rename-rule apply_to_variant as called by NamingContext::compute_variant_name (new with the
-   variant-rule repair). CamelCase slices variant[..1] / variant[1..]. char::is_uppercase is exact on
-   ASCII only: the value is compared with the code for ASCII names, the outcome for every name *)
+(* serde-rename-rule apply_to_variant (its CamelCase arm slices variant[..1] / variant[1..]) and
+   NamingContext::compute_variant_name (new with the variant-rule repair), which guards that arm.
+   char::is_uppercase is exact on ASCII only: the value is compared with the code for ASCII names,
+   the outcome for every name *)
 Definition ascii_upper (b : ascii) : bool := (65 <=? byte_n b)%N && (byte_n b <=? 90)%N.
 Fixpoint snake_go (first : bool) (s : str) : str :=
   match s with
@@ -454,10 +455,10 @@ Definition apply_to_variant_b (r : rule) (s : str) : outcome str :=
   | RScreamingKebab => Ok (us_to_dash (map up (snake_go true s)))
   end.
 
-(* ================= recorded defect classes (narrow, anchored to one call site each) ================= *)
-
-(* C15-variant: serde-rename-rule `variant[..1]` reached through compute_variant_name: an enum under
-   rename_all = camelCase with a variant whose name starts with a non-ASCII character (identifiers
-   are never empty; the empty string is in the class for completeness) *)
-Definition kf_C15_variant (name : str) : bool :=
-  match name with [] => true | c :: _ => negb (is_ascii c) end.
+(* NamingContext::compute_variant_name without a variant-level rename: CamelCase lowers the first
+   character itself (no slice; an empty name gives the empty string), the other rules go to the crate *)
+Definition variant_b (r : rule) (s : str) : outcome str :=
+  match r with
+  | RCamel => match s with [] => Ok [] | c :: rest => Ok (low c :: rest) end
+  | _ => apply_to_variant_b r s
+  end.
